@@ -4,6 +4,7 @@
      coqc -Q ../coq K Extract.v *)
 From Coq Require Import Extraction ExtrOcamlBasic ExtrOcamlString.
 From K Require Import Str SetM Linq Sieve Dec Trace Fs World Progs Elf Handler Bitmap Main ConfigInst MountParse ElfSpec.
+From K.generated Require Import ConfigStatic.
 Extraction Blacklist String List Char Bool.
 Set Extraction Optimize.
 Extraction "model.ml"
@@ -20,4 +21,4 @@ Extraction "model.ml"
   bm_create bm_set bm_unset bm_get attr_run
   parse_params common_len main
   parse_mounts parse_mounts_gen render_mounts
-  klunok_load.
+  klunok_load static_config.
